@@ -87,12 +87,12 @@ func (c *Ctx) rulePeerRecordsOutliveWills(id string) {
 func (c *Ctx) ruleNoSharedStateInAuth(id string) {
 	ru := c.R.Rule(id, "functions reachable from the credential handlers (which run concurrently on every setup worker) never call a method on a package-level variable: a shared hasher or buffer makes concurrent logins corrupt each other's fingerprints", "E8 reachability + who-may-call on package-level receivers (positive control: the fingerprint helper is reachable)", 1)
 	var roots []*ssa.Function
-	for _, hn := range []string{"staticHandler.Authenticate", "fileHandler.Authenticate"} {
-		if f := c.P.Func("wasp/auth", hn); f != nil {
+	for _, hn := range []string{"StaticHandler", "FileHandler"} {
+		if f := c.credentialHandlers("wasp/auth")[hn]; f != nil {
 			roots = append(roots, f)
 		}
 	}
-	if !ru.Anchor(len(roots) == 2, "auth.staticHandler.Authenticate and auth.fileHandler.Authenticate") {
+	if !ru.Anchor(len(roots) == 2, "Authenticate of the handlers built by auth.StaticHandler and auth.FileHandler") {
 		return
 	}
 	pk := roots[0].Package()
@@ -280,4 +280,130 @@ func (c *Ctx) ruleGuardedMaps(id string) {
 			ru.Check(bad == "", "map "+shortType(c, m.named)+"."+n, c.P.Pos(m.named.Obj().Pos()), fmt.Sprintf("%d accesses under %s", len(mi.accesses), gl), bad)
 		}
 	}
+}
+
+// ---- C01-R7: a trailing '#' also covers the parent level ----
+
+// ruleMultiLevelWildcardParent: in the subscription trie walk, the path taken when the topic ends at a node — the one
+// that emits the node's own subscribers without descending — also emits the subscribers stored under that node's '#'
+// child (MQTT 3.1.1: "sport/#" matches "sport").
+func (c *Ctx) ruleMultiLevelWildcardParent(id string) {
+	ru := c.R.Rule(id, "the subscription trie walk lets a trailing '#' cover the parent level: where the topic ends at a node and that node's own subscribers are emitted, the subscribers stored under the node's '#' child are emitted too", "E1 paths of the recursive walk + E3 provenance of the emitted value (lookup of the '#' constant in the node's children)", 1)
+	walk := c.implOf(ru, "subscriptions", "Tree", "Walk")
+	if walk == nil {
+		return
+	}
+	isNode := func(t types.Type) bool { return isNamed(derefT(t), "subscriptions", "Node") }
+	children, payload, ok := c.nodeFields("subscriptions")
+	if !ru.Anchor(ok, "subscriptions.Node with a children map and a payload") {
+		return
+	}
+	// the recursive walk over nodes
+	var rec *ssa.Function
+	for _, f := range c.funcsDeep(walk, 2) {
+		if f.Signature.Recv() == nil || !isNode(f.Signature.Recv().Type()) {
+			continue
+		}
+		for _, cl := range core.CallsIn(f) {
+			if cl.Static == f {
+				rec = f
+			}
+		}
+	}
+	if !ru.Anchor(rec != nil, "the recursive node walk reached from Tree.Walk") {
+		return
+	}
+	c.R.Fn(c.fname(rec))
+	itIdx := -1
+	for i, p := range rec.Params {
+		if _, isSig := p.Type().Underlying().(*types.Signature); isSig {
+			itIdx = i
+		}
+	}
+	if !ru.Anchor(itIdx >= 0, "the iterator parameter of the node walk") {
+		return
+	}
+	isEmit := func(cl *core.Call) bool {
+		return cl.Static == nil && !cl.Invoke && cl.Builtin() == "" && core.Strip(cl.Common.Value) == ssa.Value(rec.Params[itIdx])
+	}
+	fieldOfRecv := func(v ssa.Value, name string) bool {
+		ld, ok := core.Strip(v).(*ssa.UnOp)
+		if !ok || ld.Op != token.MUL {
+			return false
+		}
+		fa, ok := ld.X.(*ssa.FieldAddr)
+		return ok && fieldNameOf(fa.X.Type(), fa.Field) == name && core.Strip(fa.X) == ssa.Value(rec.Params[0])
+	}
+	fromWildcardChild := func(v ssa.Value) bool {
+		return depReaches(v, func(x ssa.Value) bool {
+			lk, ok := x.(*ssa.Lookup)
+			if !ok || !fieldOfRecv(lk.X, children) {
+				return false
+			}
+			k, ok := lk.Index.(*ssa.Const)
+			return ok && k.Value != nil && k.Value.ExactString() == `"#"`
+		})
+	}
+	paths, err := core.EnumPaths(rec, core.PathOpts{})
+	if err != nil {
+		ru.Undecided("end-of-topic paths of "+c.fname(rec), c.whereF(rec), err.Error())
+		return
+	}
+	ru.Evals(len(paths))
+	bad, n := "", 0
+	for _, p := range paths {
+		if _, isRet := p.Exit.(*ssa.Return); !isRet {
+			continue
+		}
+		own, wild, descends := false, false, false
+		var at ssa.Instruction
+		for _, pc := range p.Calls() {
+			switch {
+			case pc.Static == rec:
+				descends = true
+			case isEmit(pc.Call) && len(pc.Common.Args) == 1:
+				if fieldOfRecv(pc.Common.Args[0], payload) {
+					own, at = true, pc.Instr
+				} else if fromWildcardChild(pc.Common.Args[0]) {
+					wild = true
+				}
+			}
+		}
+		if !own || descends {
+			continue
+		}
+		n++
+		if !wild {
+			// no '#' child at this node: the lookup was made and came back empty
+			for _, pi := range p.Instrs() {
+				lk, ok := pi.In.(*ssa.Lookup)
+				if !ok || !fieldOfRecv(lk.X, children) {
+					continue
+				}
+				if k, ok := lk.Index.(*ssa.Const); !ok || k.Value == nil || k.Value.ExactString() != `"#"` {
+					continue
+				}
+				for _, d := range decisions(p) {
+					switch x := d.Cond.(type) {
+					case *ssa.Extract:
+						if x.Tuple == ssa.Value(lk) && x.Index == 1 && !d.Val {
+							wild = true
+						}
+					case *ssa.BinOp:
+						if (x.Op == token.EQL && d.Val) || (x.Op == token.NEQ && !d.Val) {
+							for _, pair := range [][2]ssa.Value{{x.X, x.Y}, {x.Y, x.X}} {
+								if k, isK := pair[1].(*ssa.Const); isK && k.Value == nil && depReaches(pair[0], func(v ssa.Value) bool { return v == ssa.Value(lk) }) {
+									wild = true
+								}
+							}
+						}
+					}
+				}
+			}
+		}
+		if !wild {
+			bad = "where the topic ends at a node its own subscribers are emitted (" + c.whereI(at) + ") but not those of its '#' child: the filter a/# does not match the topic a"
+		}
+	}
+	ru.Check(bad == "" && n > 0, "end of topic in "+c.fname(rec), c.whereF(rec), fmt.Sprintf("%d end-of-topic path(s), each also emits the '#' child", n), bad+map[bool]string{true: "", false: "no end-of-topic path found"}[n > 0 || bad != ""])
 }
